@@ -140,3 +140,89 @@ def sym_int_to_bytes(val, length=None, byteorder="big"):
     if isinstance(val, int):
         val = SymInt.lift(val)
     return val.to_bytes(int(length), byteorder)
+
+
+class SymSet(object):
+    """set / frozenset whose membership is decided by == (forking on SymInt
+    elements) instead of hashing (which would concretise them)"""
+
+    def __init__(self, items=()):
+        self.items = []
+        for x in items:
+            self.add(x)
+
+    def _has(self, x):
+        for y in self.items:
+            r = (y == x)
+            if r is True or (r is not False and r is not NotImplemented
+                             and bool(r)):
+                return True
+        return False
+
+    def add(self, x):
+        if not self._has(x):
+            self.items.append(x)
+
+    def __contains__(self, x):
+        return self._has(x)
+
+    def __len__(self):
+        return len(self.items)
+
+    def __iter__(self):
+        return iter(list(self.items))
+
+    def __bool__(self):
+        return bool(self.items)
+
+    def intersection(self, other):
+        o = other if isinstance(other, SymSet) else SymSet(other)
+        return SymSet(x for x in self.items if x in o)
+
+    def union(self, *others):
+        r = SymSet(self.items)
+        for o in others:
+            for x in o:
+                r.add(x)
+        return r
+
+    def __sub__(self, other):
+        o = other if isinstance(other, SymSet) else SymSet(other)
+        return SymSet(x for x in self.items if x not in o)
+
+    def __rsub__(self, other):
+        return SymSet(other) - self
+
+    def __and__(self, other):
+        return self.intersection(other)
+
+    def __or__(self, other):
+        return self.union(other)
+
+    def __eq__(self, other):
+        if not isinstance(other, (SymSet, set, frozenset)):
+            return False
+        o = other if isinstance(other, SymSet) else SymSet(other)
+        return len(self) == len(o) and all(x in o for x in self.items)
+
+    def __ne__(self, other):
+        return not self.__eq__(other)
+
+    __hash__ = None
+
+    def update(self, other):
+        for x in other:
+            self.add(x)
+
+    def remove(self, x):
+        for i, y in enumerate(self.items):
+            if bool(y == x):
+                del self.items[i]
+                return
+        raise KeyError(x)
+
+    def discard(self, x):
+        try:
+            self.remove(x)
+        except KeyError:
+            pass
